@@ -1,10 +1,13 @@
 package checks
 
 import (
+	"bufio"
 	"bytes"
 	"context"
 	"errors"
 	"fmt"
+	"io"
+	"strings"
 
 	astits "github.com/asticode/go-astits"
 	"verif/mc"
@@ -40,7 +43,18 @@ func runWithSkipper(b []byte, api string, decide func(call int, p *astits.Packet
 		calls++
 		return s
 	}
-	d := astits.NewDemuxer(context.Background(), bytes.NewReader(b), astits.DemuxerOptPacketSize(188), astits.DemuxerOptPacketSkipper(sk))
+	opts := []func(*astits.Demuxer){astits.DemuxerOptPacketSkipper(sk)}
+	var rd io.Reader = bytes.NewReader(b)
+	switch {
+	case strings.HasSuffix(api, "+auto"): // packet size auto-detected on a seekable reader
+		api = strings.TrimSuffix(api, "+auto")
+	case strings.HasSuffix(api, "+bufio-auto"): // ... on a buffered reader
+		api = strings.TrimSuffix(api, "+bufio-auto")
+		rd = bufio.NewReader(bytes.NewReader(b))
+	default:
+		opts = append(opts, astits.DemuxerOptPacketSize(188))
+	}
+	d := astits.NewDemuxer(context.Background(), rd, opts...)
 	if api == "packet" {
 		o := DrainPackets(d, len(b))
 		if o.Panic != nil || !o.EOF || len(o.Errs) > 0 {
@@ -263,7 +277,13 @@ func checkC19(c *mc.Ctx) {
 			}
 			refPk = append(refPk, p)
 		}
-		for _, api := range []string{"packet", "data"} {
+		apis := []string{"packet", "data"}
+		if n >= 2 && n <= 12 {
+			// the packet size found by auto-detection instead of given: detection looks at the first packets itself, the
+			// predicate is still consulted once per packet
+			apis = append(apis, "packet+auto", "data+auto", "data+bufio-auto")
+		}
+		for _, api := range apis {
 			api := api
 			total := int64(1) << uint(n)
 			done := mc.ParFor(total, c.OverBudget, func(mask int64) {
@@ -280,7 +300,10 @@ func checkC19(c *mc.Ctx) {
 					rep("skipper-run-failed", prob)
 					return
 				}
-				want, p2 := runPlain(fb, api)
+				want, p2 := runPlain(fb, strings.SplitN(api, "+", 2)[0])
+				if strings.Contains(api, "+") {
+					c.Ev.Class("skip-vector-with-auto-detection", 1)
+				}
 				if p2 != "" {
 					rep("filtered-run-failed", p2)
 					return
@@ -339,7 +362,7 @@ func checkC19(c *mc.Ctx) {
 						fb = append(fb, st.Bytes[i*188:(i+1)*188]...)
 					}
 				}
-				want, _ := runPlain(fb, api)
+				want, _ := runPlain(fb, strings.SplitN(api, "+", 2)[0])
 				if prob != "" || !equalStrs(res, want) {
 					c.Rep.Report("predicate-differs-from-deletion:"+api, map[string]any{"kind": "stream", "stream": st.Name, "predicate": name, "bytes": mc.Hex(st.Bytes), "message": prob})
 				}
@@ -385,7 +408,7 @@ func checkC19(c *mc.Ctx) {
 		}
 		c19Parsers(c, st, refPk)
 	}
-	c.Ev.Require("mixed-skip-vector", "skip-vector-with-parser", "structured-predicate", "parser-observer", "parser-replacer", "parser-replacer-returns-nothing", "parser-identity-replacer", "parser-constant-slice-replacer", "parser-failing-on-non-pat-unit")
+	c.Ev.Require("mixed-skip-vector", "skip-vector-with-auto-detection", "skip-vector-with-parser", "structured-predicate", "parser-observer", "parser-replacer", "parser-replacer-returns-nothing", "parser-identity-replacer", "parser-constant-slice-replacer", "parser-failing-on-non-pat-unit")
 }
 
 // IdenticalRunsStream carries runs of byte-identical packets (null packets with the same undefined
@@ -829,7 +852,7 @@ func checkC20(c *mc.Ctx) {
 		depth = 8
 	}
 	streams := c19Streams(c.Seed)
-	streams = append(streams, &Stream{Name: "big-payloads", Bytes: BigPayloadStream(c.Seed)}, MultiSectionStream(c.Seed), NetworkPIDStream(c.Seed, 0x10), NetworkPIDStream(c.Seed, 0x50), HeadlessStream(c.Seed), BrokenSectionStream(c.Seed), ESTypesStream(c.Seed))
+	streams = append(streams, &Stream{Name: "big-payloads", Bytes: BigPayloadStream(c.Seed)}, MultiSectionStream(c.Seed), NetworkPIDStream(c.Seed, 0x10), NetworkPIDStream(c.Seed, 0x50), HeadlessStream(c.Seed), BrokenSectionStream(c.Seed), ESTypesStream(c.Seed), TSIDChangeStream(c.Seed))
 	for _, st0 := range streams {
 		for _, cfg := range []struct {
 			auto bool
@@ -1017,6 +1040,26 @@ func ESTypesStream(seed int64) *Stream {
 		}
 	}
 	return BuildStream("elementary-stream-types", lists, order, nil)
+}
+
+// TSIDChangeStream: the identity of the multiplex changes in mid-stream (a PAT with another transport_stream_id and
+// another PMT PID, as after a re-multiplexing), around units that are being assembled: a video unit starts before
+// the first PAT and ends after it, another one straddles the second PAT.
+func TSIDChangeStream(seed int64) *Stream {
+	ccs := []uint8{2, 6, 10, 14}
+	patA, patB := modelPAT(1, 0x1000), modelPAT(1, 0x1001)
+	patA.TransportStreamID, patB.TransportStreamID = 0x0a0a, 0x0b0b
+	v1 := Packetize(PESUnit(0x100, 0xe0, pesPayload(151, 184*2-14-5, seed), 1, false), nil, &ccs[3], false)
+	v2 := Packetize(PESUnit(0x100, 0xe0, pesPayload(152, 184*2-14-5, seed), 2, false), nil, &ccs[3], false)
+	v3 := Packetize(PESUnit(0x100, 0xe0, pesPayload(153, 40, seed), 3, false), nil, &ccs[3], false)
+	lists := [][]*ref.Pkt{
+		append(Packetize(PSIUnit(0, 0, [][]byte{SecPAT(patA, ref.SecHdr{CNI: true})}, nil), nil, &ccs[0], true), Packetize(PSIUnit(0, 0, [][]byte{SecPAT(patB, ref.SecHdr{CNI: true, Version: 1})}, nil), nil, &ccs[0], true)...),
+		Packetize(PSIUnit(0x1000, 0, [][]byte{SecPMT(modelPMT(1, 0x100, 1), ref.SecHdr{CNI: true})}, nil), nil, &ccs[1], true),
+		Packetize(PSIUnit(0x1001, 0, [][]byte{SecPMT(modelPMT(1, 0x100, 2), ref.SecHdr{CNI: true, Version: 1})}, nil), nil, &ccs[2], true),
+		append(append(v1, v2...), v3...),
+	}
+	// video(1a) PAT-A PMT-A video(1b) video(2a) PAT-B video(2b) PMT-B video(3)
+	return BuildStream("transport-stream-id-changes", lists, []int{3, 0, 1, 3, 3, 0, 3, 2, 3}, nil)
 }
 
 // VersionToggleStream: tables that change over time and come back to a version number they had before with
